@@ -88,6 +88,7 @@ func (o *ou1) eval(fn *ssa.Function, binds map[*ssa.Parameter]tri) *ou1Summary {
 	// pruned CFG
 	removed := map[edge]bool{}
 	for _, bf := range branchFacts(fn) {
+		curEnv = bf.A.Env
 		if bf.A.Kind != "bool" {
 			continue
 		}
